@@ -46,7 +46,8 @@ def main():
         assert r.returncode == 0, r.stderr
         meta["repo_head"] = sh(["git", "-C", "/repo", "rev-parse", "--short", "HEAD"]).stdout.strip()
         assert sh([os.path.join(V, "tools", "seed_build_ext.sh"), wt]).returncode == 0
-        r0 = sh(["/venv/bin/python", demo], cwd=wt, timeout=900)
+        denv = dict(os.environ, PYTHONPATH=wt)  # demos import phonopy from the worktree wherever the demo file lives
+        r0 = sh(["/venv/bin/python", demo], cwd=wt, timeout=900, env=denv)
         meta["demo_clean_rc"] = r0.returncode
         meta["ran"].append("demo on clean tree: rc=%d" % r0.returncode)
         if not skip_suite and not os.path.exists(REF):
@@ -58,7 +59,7 @@ def main():
         assert ra.returncode == 0, ra.stderr + ra.stdout
         rb = sh([os.path.join(V, "tools", "seed_build_ext.sh"), wt])
         meta["builds_with_patch"] = rb.returncode == 0
-        r1 = sh(["/venv/bin/python", demo], cwd=wt, timeout=900)
+        r1 = sh(["/venv/bin/python", demo], cwd=wt, timeout=900, env=denv)
         meta["demo_patched_rc"] = r1.returncode
         meta["demo_patched_tail"] = (r1.stdout + r1.stderr)[-600:]
         meta["ran"].append("demo with patch: rc=%d" % r1.returncode)
